@@ -33,7 +33,7 @@ RULE = ('seeded op histories {refine leaf, uniform_refine, refine_msh_bdr on '
         'non-trivial = >= 1 op; distinct = distinct (domain, op list)')
 W = {'refine': 6, 'uniform': 0.5, 'target': 4}
 TIERS = {
-    'quick': {'runs': 2500, 'budget_s': 150, 'leaf_cap': 250, 'max_ops': 30,
+    'quick': {'runs': 6000, 'budget_s': 150, 'leaf_cap': 250, 'max_ops': 30,
               'weights': W},
     'thorough': {'runs': 100000, 'budget_s': 1500, 'leaf_cap': 600,
                  'max_ops': 80, 'weights': W},
